@@ -101,6 +101,10 @@ pub fn run(sc: &Value) -> Value {
                                      "wrong_content": wrong, "differences": diffs.len()}));
             }
             out["versions"] = json!(versions);
+            out["latest_closed"] = json!(match archive.resolve_band_id(BandSelectionPolicy::LatestClosed).await {
+                Ok(b) => b.to_string(),
+                Err(e) => format!("Err:{e:?}"),
+            });
             out["format_problems"] = json!(crate::formatscan::scan(&arch));
             if let Some(last) = archive.list_band_ids().await.unwrap().last() {
                 out["recorded_mtimes"] = json!(crate::formatscan::recorded_mtimes(&arch, &last.to_string()));
